@@ -57,7 +57,7 @@ for d in sorted(glob.glob(os.path.join(ROOT, "seeded", "*"))):
     m = json.load(open(os.path.join(d, "meta.json")))
     esc = lambda s: str(s).replace("|", "\\|").replace("\n", " ")
     rows.append(f"| {os.path.basename(d)} | {esc(m.get('summary', ''))[:260]} | {esc(m.get('needs', ''))[:200]} | {esc(m.get('detected_by', ''))[:220]} |")
-tail = tail.replace("@@FIXED@@", fixed).replace("@@FINDINGS@@", finds or "(none)").replace("@@SEEDS@@", "\n".join(rows))
+tail = tail.replace("@@FIXED@@", fixed).replace("@@FINDINGS@@", finds or "(none)").replace("@@SEEDS@@", "\n".join(rows)).replace("@@NSEEDS@@", str(len(rows) - 2))
 out.append(tail)
 open(os.path.join(ROOT, "DESIGN.md"), "w").write("\n".join(out))
 print("DESIGN.md written,", sum(len(x) for x in out), "chars")
